@@ -226,6 +226,17 @@ pub(crate) fn emit(event: Event) {
 pub trait PortOpener: Send + Sync + 'static {
     /// one attempt to open the port
     fn open(&self, path: &str) -> std::io::Result<Box<dyn VerifIo>>;
+
+    /// the same, with the settings the task was configured with (ignored by default)
+    #[cfg(feature = "serial")]
+    fn open_with(
+        &self,
+        path: &str,
+        settings: crate::SerialSettings,
+    ) -> std::io::Result<Box<dyn VerifIo>> {
+        let _ = settings;
+        self.open(path)
+    }
 }
 
 static PORT_OPENER: std::sync::Mutex<Option<Arc<dyn PortOpener>>> = std::sync::Mutex::new(None);
@@ -243,14 +254,17 @@ pub(crate) enum MaybeSerial {
 }
 
 #[cfg(feature = "serial")]
-pub(crate) fn open_port(path: &str) -> Option<tokio_serial::Result<MaybeSerial>> {
+pub(crate) fn open_port(
+    path: &str,
+    settings: crate::SerialSettings,
+) -> Option<tokio_serial::Result<MaybeSerial>> {
     let opener = PORT_OPENER
         .lock()
         .unwrap_or_else(|e| e.into_inner())
         .clone()?;
     Some(
         opener
-            .open(path)
+            .open_with(path, settings)
             .map(MaybeSerial::Verif)
             .map_err(|err| tokio_serial::Error::new(tokio_serial::ErrorKind::Io(err.kind()), err.to_string())),
     )
